@@ -77,6 +77,11 @@ def run (body : List (List String)) : List (String × String) :=
       let s := match canon, ls.findSome? (fun l => match l with | ["impl", "lowest", n] => n.toNat? | _ => none) with
         | some (f :: _), some low => if f.num == low then s else s.fail "C09" s!"lowest servable {low} is not the first block of the canonical snapshot {f.num}"
         | _, _ => s
+      -- the lowest servable number is servable: a request from it is answered (the snapshot above is that answer)
+      let s := match canon, ls.findSome? (fun l => match l with | ["impl", "lowest", n] => n.toNat? | _ => none), head with
+        | none, some low, some _ =>
+          if low != 0 && ls.any (· == ["impl", "canon", "none"]) then s.fail "C09" s!"lowest servable number {low} is not served by number" else s
+        | _, _, _ => s
       { s with canon := canon }
     | ["op", "fromnum", n] =>
       let n := n.toNat?.getD 0
